@@ -160,3 +160,19 @@ package polynomial
 //@   loop 1: invariant each(subset[:rangeindex+1], x, indom(coefficients, x))
 //@   loop 1: invariant scalars != nil && numerator != nil && forall(k, party.ID, indom(scalars, k) ==> scalars[k] != nil)
 //@   loop 1: invariant forall(k, party.ID, inslice(interpolationDomain, k) ==> indom(scalars, k))
+
+// ---- constructors (C05)
+//@ func NewPolynomial
+//@   nopanic[C05]
+//@   requires group != nil && degree >= 0 && degree < 1000000
+//@   modifies heap:GV_hstate
+//@   allocates
+//@   loop 1: invariant polynomial != nil && fresh(polynomial) && fresh(polynomial.coefficients) && polynomial.group == group && len(polynomial.coefficients) == degree + 1 && 1 <= i && forall(k, integer, (0 <= k && k < i) ==> polynomial.coefficients[k] != nil)
+//@   ensures result != nil && fresh(result) && result.group == group && len(result.coefficients) == degree + 1 && each(result.coefficients, c, c != nil)
+//@ func NewPolynomialExponent
+//@   nopanic[C05]
+//@   requires polynomial != nil && len(polynomial.coefficients) > 0 && each(polynomial.coefficients, c, c != nil)
+//@   modifies nothing
+//@   allocates
+//@   loop 1: invariant p != nil && fresh(p) && fresh(p.coefficients) && p.group == polynomial.group && each(p.coefficients, c, c != nil)
+//@   ensures result != nil && fresh(result) && result.group == polynomial.group && each(result.coefficients, c, c != nil)
